@@ -52,12 +52,13 @@ impl<'a, R: AsyncRead + Send + Unpin, RW: AsyncRead + AsyncWrite + Send + Unpin>
         let mut_self = self.get_mut();
         if let Some(ref mut reader) = mut_self.reader {
             let before_len = buf.filled().len();
+            let had_capacity = buf.remaining() > 0;
             match Pin::new(&mut *reader).poll_read(cx, buf) {
                 Poll::Pending => return Poll::Pending,
                 Poll::Ready(Err(e)) => return Poll::Ready(Err(e)),
                 Poll::Ready(Ok(())) => {
                     let num_read = buf.filled().len() - before_len;
-                    if num_read > 0 {
+                    if num_read > 0 || !had_capacity {
                         return Poll::Ready(Ok(()));
                     } else {
                         // EOF
